@@ -284,6 +284,61 @@ func pCustom(seed uint64, wire bool) {
 	emit(fn, args, impl, orc)
 }
 
+// pBigField (C12): field numbers of 65536 and more are legal protobuf (up to 2^29-1). The struct codec keeps field
+// numbers in 16 bits: recorded deviation field16 (F48), reproduced so that any other difference is still reported.
+type bigFieldMsg struct {
+	A int32  `protobuf:"varint,1,opt,name=a"`
+	B int32  `protobuf:"varint,70000,opt,name=b"`
+	C string `protobuf:"bytes,65540,opt,name=c"`
+	D uint64 `protobuf:"fixed64,536870911,opt,name=d"`
+}
+
+func pBigField(seed uint64) {
+	if !mine() {
+		skip()
+		return
+	}
+	r := &vrng{s: seed}
+	args := fmt.Sprint(seed)
+	trace("p.bigfield", args)
+	m := &bigFieldMsg{A: int32(r.n(100)) + 1, B: int32(r.n(1000)) + 1, C: "c" + r.str(), D: r.next() | 1}
+	build := func(mask uint64) []byte {
+		var b []byte
+		b = appendUvarint(b, 1<<3)
+		b = appendUvarint(b, uint64(m.A))
+		// the package writes the fields in declaration order; so does the reference for ascending numbers
+		b = appendUvarint(b, (70000&mask)<<3)
+		b = appendUvarint(b, uint64(m.B))
+		b = appendUvarint(b, (65540&mask)<<3|2)
+		b = appendUvarint(b, uint64(len(m.C)))
+		b = append(b, m.C...)
+		b = appendUvarint(b, (536870911&mask)<<3|1)
+		for i := 0; i < 8; i++ {
+			b = append(b, byte(m.D>>(8*i)))
+		}
+		return b
+	}
+	var got []byte
+	impl := guarded(func() string {
+		b, err := proto.Marshal(m)
+		if err != nil {
+			return "err:marshal"
+		}
+		got = b
+		var back bigFieldMsg
+		if err := proto.Unmarshal(b, &back); err != nil || back != *m {
+			return hexs(b) + " rt=DIFFERENT"
+		}
+		return hexs(b)
+	})
+	spec := hexs(build(^uint64(0)))
+	orc := spec
+	if impl != spec && bytes.Equal(got, build(0xFFFF)) && impl == hexs(got) {
+		orc = "spec=" + spec + " known-deviations=field16"
+	}
+	emit("p.bigfield", args, impl, orc)
+}
+
 func appendUvarint(b []byte, u uint64) []byte {
 	for u >= 0x80 {
 		b = append(b, byte(u)|0x80)
@@ -292,7 +347,99 @@ func appendUvarint(b []byte, u uint64) []byte {
 	return append(b, byte(u))
 }
 
+// pBigStruct: message types whose Go struct is larger than 64 KiB, with fields at offsets of 65536 and more: the
+// encoding is that of the equivalent struct holding the array as a byte slice, and the round trip restores every field
+type bigA struct {
+	Blob [65536]byte
+	N    int64
+	U    uint32
+	F    float64
+}
+type bigAFlat struct {
+	Blob []byte
+	N    int64
+	U    uint32
+	F    float64
+}
+type bigB struct {
+	ID    int
+	Pad   [70000]byte
+	Inner struct {
+		A int
+		B int32
+	}
+	Count uint64
+	Tail  string
+}
+type bigBFlat struct {
+	ID    int
+	Pad   []byte
+	Inner struct {
+		A int
+		B int32
+	}
+	Count uint64
+	Tail  string
+}
+
+func pBigStruct(seed uint64) {
+	if !mine() {
+		skip()
+		return
+	}
+	args := fmt.Sprint(seed)
+	trace("p.big", args)
+	r := &vrng{s: seed}
+	a := &bigA{N: int64(r.next()), U: uint32(r.next()), F: float64(r.n(1000)) / 8}
+	b := &bigB{ID: r.n(1000) + 1, Count: r.next(), Tail: r.str()}
+	b.Inner.A, b.Inner.B = r.n(100000), int32(r.next())
+	if seed%2 == 0 { // non-zero array content at a few places, incl. where a wrapped offset would land
+		for _, i := range []int{0, 1, 7, 8, 15, 16, 23, 24, 4463, 4464, 4472, 65535} {
+			a.Blob[i] = byte(r.next()) | 1
+			b.Pad[i] = byte(r.next()) | 1
+		}
+		b.Pad[69999] = 9
+	}
+	var wantA, wantB []byte
+	impl := guarded(func() string {
+		fa := &bigAFlat{N: a.N, U: a.U, F: a.F}
+		fb := &bigBFlat{ID: b.ID, Inner: b.Inner, Count: b.Count, Tail: b.Tail}
+		if seed%2 == 0 {
+			fa.Blob, fb.Pad = a.Blob[:], b.Pad[:]
+		}
+		wantA, _ = proto.Marshal(fa)
+		wantB, _ = proto.Marshal(fb)
+		ga, err1 := proto.Marshal(a)
+		gb, err2 := proto.Marshal(b)
+		if err1 != nil || err2 != nil {
+			return "err:marshal"
+		}
+		if proto.Size(a) != len(ga) || proto.Size(b) != len(gb) {
+			return "size-differs-from-marshal"
+		}
+		var ra bigA
+		var rb bigB
+		if proto.Unmarshal(ga, &ra) != nil || proto.Unmarshal(gb, &rb) != nil {
+			return "rt=err"
+		}
+		if ra != *a || rb != *b {
+			return fmt.Sprintf("rt=DIFFERENT a:{%d %d %v} b:{%d %v %d %q}", ra.N, ra.U, ra.F, rb.ID, rb.Inner, rb.Count, rb.Tail)
+		}
+		if seed%2 != 0 {
+			// all-zero array as FIRST field of a message passed by pointer: the package writes the zero value of the
+			// first field (its way of giving a non-nil pointer a non-empty encoding), an array as 65536 zero bytes
+			// and a nil slice as an empty one: no byte oracle for this message, the round trip decides
+			wantA = ga
+		}
+		return fmt.Sprintf("a=%x b=%x rt=ok", fnv(string(ga)), fnv(string(gb)))
+	})
+	emit("p.big", args, impl, fmt.Sprintf("a=%x b=%x rt=ok", fnv(string(wantA)), fnv(string(wantB))))
+}
+
 func c03Fixed2(n int) {
+	for i := 0; i < 6; i++ {
+		pBigStruct(rnd())
+	}
 	for i := 0; i < n; i++ {
 		pUnexported(rnd())
 		pCustom(rnd(), false)
